@@ -242,8 +242,6 @@ class World:
 
     def contract_for(self, f):
         k = self.func_key(f)
-        if k == self.top_active:
-            return None
         h = self.contracts.get(k)
         if h is None and f.module is not None and not isinstance(f.node, ast.Lambda) and f.closure is None:
             self.inlined.add('%s::%s' % k)
@@ -360,9 +358,21 @@ class World:
         return NotImplementedVal
 
     def extern_binop(self, interp, op, a, b):
+        for x in (a, b):
+            h = self._abs(x, 'binop')
+            if h is not None:
+                r = h(interp, op, a, b)
+                if r is not NotImplementedVal:
+                    return r
         return NotImplementedVal
 
     def extern_compare(self, interp, op, a, b):
+        for x in (a, b):
+            h = self._abs(x, 'compare')
+            if h is not None:
+                r = h(interp, op, a, b)
+                if r is not NotImplementedVal:
+                    return r
         return NotImplementedVal
 
     def extern_contains(self, interp, c, item):
